@@ -352,7 +352,7 @@ Decode(kind, s) == IF kind = "tx" THEN DecodeTx(s) ELSE IF kind = "block" THEN D
 (*   cut(i, a)   the stream ends a bytes into token i                      *)
 (*   form(i, f)  CompactSize i re-encoded in the longer form f             *)
 (*   val(i, v)   CompactSize i claims v (one less, one more, huge)         *)
-(*   flag(i, b)  the flag byte is b                                        *)
+(*   flag(i, b)  the flag byte is b (0, even, odd other than 1, high bit)   *)
 (*   trail(n)    n extra bytes follow                                      *)
 (***************************************************************************)
 NoPert == [k |-> "none", i |-> 0, a |-> 0]
@@ -372,7 +372,8 @@ Perts(kind, s) ==
       \cup UNION {{[k |-> "val", i |-> i, a |-> a] :      \* -100 / -101 stand for v - 1 / v + 1
                         a \in HugeVals \cup {-101} \cup (IF s[i].v > 0 THEN {-100} ELSE {})} :
                    i \in {j \in cnt : full \/ ~InTx(s[j])}}
-      \cup {[k |-> "flag", i |-> i, a |-> b] : i \in {j \in idx : s[j].role = "flag" /\ full}, b \in {0, 2, 3}}
+      \cup {[k |-> "flag", i |-> i, a |-> b] : i \in {j \in idx : s[j].role = "flag"},
+                                              b \in IF full THEN {0, 2, 3, 4, 5, 129} ELSE {2, 3, 129}}
       \cup {[k |-> "trail", i |-> 0, a |-> n] : n \in {1, 5}}
 
 NewVal(t, a) == IF a = -100 THEN t.v - 1 ELSE IF a = -101 THEN t.v + 1 ELSE a
